@@ -210,4 +210,47 @@ def gen(rng, tier):
                     reqs.append("C18 uniform_i %s %s 1 %s" % (wi(hi), wi(lo), W(t)))
                     reqs.append("C18 uniform_i %s %s 1 %s" % (wi(lo), wi(lo), W(t)))
                     reqs.append("C18 sample_single_i %s %s %s" % (wi(hi), wi(lo), W(t)))
+    reqs += generic_front_ends(rng, tier)
+    return reqs
+
+
+def generic_front_ends(rng, tier):
+    """api-coverage block: `SampleUniform for BigUint/BigInt` through `Rng::gen_range` (half-open and inclusive) and
+    `rand::distributions::Uniform::{new, new_inclusive, from(range), from(range_inclusive)}`: widths from `bounds`
+    with their rejection tapes (accept at once, reject k times, exhausted tape), offsets 0 / multi-digit / negative /
+    zero-crossing; empty and inverted ranges for the `Uniform` constructors (the crate's own assertions)"""
+    reqs = []
+    bs = bounds(rng, tier)
+    los_u = [0, 1, MAX, MAX + 1, rng.getrandbits(64), rng.getrandbits(200)]
+    for w in bs[:: (1 if tier == "thorough" else 5)] + [1, 2, 3]:
+        tapes = below_tapes(rng, w, "quick")
+        for lo in (0, rng.choice(los_u)):
+            hi = lo + w
+            for incl in (0, 1):
+                t = rng.choice(tapes)
+                reqs.append("C18 gen_range_u %s %s %d %s" % (wu(lo), wu(hi - incl), incl, W(t)))
+            for incl in (0, 1, 2, 3):
+                t = rng.choice(tapes)
+                reqs.append("C18 dist_uniform_u %s %s %d %s" % (wu(lo), wu(hi - incl % 2), incl, W(t)))
+        big_ = rng.choice([1, MAX, MAX + 1, rng.getrandbits(130) + 1])
+        for lo in (0, -w, -w - big_, -(w // 2) if w > 1 else -w - 1, big_):
+            hi = lo + w
+            for incl in (0, 1):
+                t = rng.choice(tapes)
+                reqs.append("C18 gen_range_i %s %s %d %s" % (wi(lo), wi(hi - incl), incl, W(t)))
+            for incl in (0, 1, 2, 3):
+                t = rng.choice(tapes)
+                reqs.append("C18 dist_uniform_i %s %s %d %s" % (wi(lo), wi(hi - incl % 2), incl, W(t)))
+        if rng.randrange(4) == 0:
+            t = rng.choice(tapes)
+            lo = rng.choice(los_u); hi = lo + w
+            for incl in (0, 2):
+                reqs.append("C18 dist_uniform_u %s %s %d %s" % (wu(hi), wu(lo), incl, W(t)))
+                reqs.append("C18 dist_uniform_u %s %s %d %s" % (wu(hi), wu(hi), incl, W(t)))
+                reqs.append("C18 dist_uniform_i %s %s %d %s" % (wi(-lo), wi(-hi), incl, W(t)))
+                reqs.append("C18 dist_uniform_i %s %s %d %s" % (wi(-lo), wi(-lo), incl, W(t)))
+            for incl in (1, 3):
+                reqs.append("C18 dist_uniform_u %s %s %d %s" % (wu(hi), wu(lo), incl, W(t)))
+                reqs.append("C18 dist_uniform_i %s %s %d %s" % (wi(hi), wi(lo), incl, W(t)))
+                reqs.append("C18 dist_uniform_u %s %s %d %s" % (wu(hi), wu(hi), incl, W(t)))   # inclusive, width 1
     return reqs
